@@ -262,13 +262,19 @@ pub fn run(a_: &Args, out: &mut impl Write) {
             let before = unsafe { arena::read(ta, 16) };
             let (mt, mf) = (a.mk_target, b.mk_fake);
             let mut guards_after = 0usize;
+            let mut os_calls = 0usize;
             let r = {
                 let ga = &mut guards_after;
+                let oc = &mut os_calls;
                 quiet_catch(std::panic::AssertUnwindSafe(move || {
                     let mut inj = InjectorPP::new();
+                    // everything the library asks of the OS during the attempt (mmap, munmap,
+                    // mprotect, cache flush): a refusal must come before any of it
+                    shim::start_log();
                     let res = std::panic::catch_unwind(std::panic::AssertUnwindSafe(|| {
                         inj.when_called(mt()).will_execute_raw(mf());
                     }));
+                    *oc = shim::stop_log().len();
                     *ga = inj.verif_guards().len();
                     if let Err(e) = res {
                         // check the function while the injector is still alive, then let it go
@@ -285,13 +291,14 @@ pub fn run(a_: &Args, out: &mut impl Write) {
             let lv = a.lifetime_variant_of == Some(b.idx) || b.lifetime_variant_of == Some(a.idx);
             writeln!(
                 out,
-                "sigpair raw {} {} | {} restored={} guards={} lv={}",
+                "sigpair raw {} {} | {} restored={} guards={} lv={} os={}",
                 a.descr,
                 b.descr,
                 classify(&r),
                 (before == after) as u8,
                 guards_after,
-                lv as u8
+                lv as u8,
+                os_calls
             )
             .unwrap();
         }
@@ -388,9 +395,13 @@ pub fn run(a_: &Args, out: &mut impl Write) {
         let ta = (e.target_addr)();
         let before = unsafe { arena::read(ta, 16) };
         let mt = e.mk_target;
+        let mut os_calls = 0usize;
+        let oc = &mut os_calls;
         let r = quiet_catch(std::panic::AssertUnwindSafe(move || {
             let mut inj = InjectorPP::new();
+            shim::start_log();
             let res = std::panic::catch_unwind(std::panic::AssertUnwindSafe(|| inj.when_called(mt()).will_return_boolean(false)));
+            *oc = shim::stop_log().len();
             let g = inj.verif_guards().len();
             if let Err(err) = res {
                 if g != 0 {
@@ -400,7 +411,7 @@ pub fn run(a_: &Args, out: &mut impl Write) {
             }
         }));
         let after = unsafe { arena::read(ta, 16) };
-        writeln!(out, "boolgate {} | {} restored={}", e.descr, classify(&r), (before == after) as u8).unwrap();
+        writeln!(out, "boolgate {} | {} restored={} os={}", e.descr, classify(&r), (before == after) as u8, os_calls).unwrap();
     }
     {
         let r = quiet_catch(|| unsafe {
